@@ -170,13 +170,17 @@ def run_random(sh, w, db, pool, spec):
                 {"op": "raw_global", "names": ["vf_u"]},
                 {"op": "eval", "code": code, "stmts": False},
                 {"op": "eval", "code": f"({code}) -> ({src.text})", "stmts": False},
+                {"op": "eval", "code": f"let vf_s = ({src.text})", "stmts": False},
+                {"op": "raw_global", "names": ["vf_s"]},
+                {"op": "eval", "code": f"let vf_c = {code}", "stmts": False},
+                {"op": "eval", "code": f"vf_c -> ({src.text})", "stmts": False},
             ])
         except (WorkerDied, WorkerTimeout) as e:
             sh.violation(case, f"interpreter crashed/hung on `{code}`: {e}")
             w.restart()
             es.reset()
             continue
-        r_let, r_raw, r_conv, r_back = rs
+        r_let, r_raw, r_conv, r_back, r_lets, r_raws, r_letc, r_back2 = rs
         if not r_let.get("ok"):
             # generated target is itself invalid (e.g. overflow to inf): not a conversion case
             sh.inconclusive_case(f"target expression not evaluable: {r_let.get('msg')}", case) if False else sh.count("target_not_evaluable")
@@ -192,6 +196,15 @@ def run_random(sh, w, db, pool, spec):
             elif not rel_close(db.base_value(r_back["value"]), src_base, TOL):
                 why = (f"round trip changed the quantity: {float(src_base)!r} -> "
                        f"{float(db.base_value(r_back['value']))!r}")
+            elif r_lets.get("ok") and x != 0:
+                # the second conversion is a conversion like any other: exactly the requested unit, displayed as such,
+                # whether the converted value is used directly or was stored in a variable first
+                raw_s = r_raws["values"]["vf_s"]
+                for rb, how in ((r_back, f"({code}) -> ({src.text})"), (r_back2, f"let vf_c = {code}; vf_c -> ({src.text})")):
+                    w2 = judge_conversion(sh, db, case, rb, src_base, raw_s)
+                    if w2:
+                        why = f"converting the converted value on, `{how}`: {w2}"
+                        break
         if why:
             sh.violation(case, f"`{code}`: {why}", r_conv.get("value"))
         if src.factor != tgt.factor and x != 0:
